@@ -4,6 +4,7 @@
 package c06
 
 import (
+	"bytes"
 	"github.com/goatcms/goatcore/filesystem"
 	"github.com/goatcms/goatcore/filesystem/fscache"
 	"github.com/goatcms/goatcore/zzverif/nd"
@@ -264,6 +265,28 @@ func zzRYW(k int) {
 		}
 		hist += name
 		nd.Assert(reftree.Same(c, b, nil), "C07/view-after/"+hist)
+	}
+	// the same answers through other spellings of the paths (leading "/",
+	// leading "./"): a pending removal hides the node for every spelling
+	for _, q := range [][]string{{"g"}, {"a", "x"}, {"a"}, {"a", "d"}} {
+		t := b.Find(q)
+		for _, pre := range []string{"/", "./"} {
+			sp := pre + reftree.Join(q)
+			nd.Assert(c.IsExist(sp) == (t != nil), "C07/spelling-isexist/"+hist)
+			nd.Assert(c.IsFile(sp) == (t != nil && !t.Dir), "C07/spelling-isfile/"+hist)
+			nd.Assert(c.IsDir(sp) == (t != nil && t.Dir), "C07/spelling-isdir/"+hist)
+			_, lerr := c.Lstat(sp)
+			nd.Assert((lerr == nil) == (t != nil), "C07/spelling-lstat/"+hist)
+			d, rerr := c.ReadFile(sp)
+			nd.Assert((rerr == nil) == (t != nil && !t.Dir), "C07/spelling-readfile/"+hist)
+			if rerr == nil && t != nil && !t.Dir {
+				nd.Assert(bytes.Equal(d, t.Data), "C07/spelling-readfile-data/"+hist)
+			}
+			if r, err := c.Reader(sp); err == nil {
+				r.Close()
+				nd.Assert(t != nil && !t.Dir, "C07/spelling-reader/"+hist)
+			}
+		}
 	}
 	// through a child view of the cache
 	if sub := b.Find([]string{"a"}); sub != nil && sub.Dir {
